@@ -4,7 +4,7 @@
 (* the expectation operators used by the trace specification.               *)
 EXTENDS FallbackOps
 
-LocSym == [en |-> <<"e","n">>, fr |-> <<"f","r">>, de |-> <<"d","e">>, es |-> <<"e","s">>]
+LocSym == [en |-> <<"e","n">>, fr |-> <<"f","r">>, de |-> <<"d","e">>, es |-> <<"e","s">>, it |-> <<"i","t">>]
 PCode  == [def |-> "d", null |-> "n", abs |-> "a"]
 Rot    == [def |-> "null", null |-> "abs", abs |-> "def"]
 
